@@ -251,8 +251,13 @@ class Runner:
         timed_out = False
         stderr = b""
         try:
+            # header line, then one operation per line: the session parses an operation only when it
+            # is about to run it, so what the first k operations do never depends on what follows
+            # them (cutting a session after an operation is neutral for everything before the cut)
             with open(os.path.join(scratch, "spec.json"), "w", encoding="utf-8") as f:
-                f.write(json.dumps(spec))
+                f.write(json.dumps({k: v for k, v in spec.items() if k != "ops"}) + "\n")
+                for op in spec["ops"]:
+                    f.write(json.dumps(op) + "\n")
             if self.mode == "exec":
                 cmd = [PYTHON, "-X", "faulthandler", "-s", "-m", "sim.session"]
                 if self.aslr:
